@@ -270,3 +270,235 @@ Definition outcome (g : gates) (c : topcfg) (errs : list (path * verr)) : Prop :
 (* the deterministic reading (first candidate in listed order) *)
 Definition full_validate (g : gates) (c : topcfg) : list (path * verr) :=
   walk (tree_of (cfg_validate g c) (hd_error (pipes_candidates g c)) c).
+
+(* =====================================================================================
+   Part 3 — strict decoding: which keys a type descriptor accepts.
+
+   confmap.decodeConfig configures mapstructure with ErrorUnused = true, TagName "mapstructure",
+   MatchName = exact string equality and no weak typing.  mapstructure.decodeStructFromMap then
+   works level by level: the fields of the struct — with the fields of every `,squash` member
+   spliced into the same level, recursively — are matched against the keys of the input map by
+   exact name; every key matched by no field is "unused" and, unless the struct has a `,remain`
+   field, reported as  '<path>' has invalid keys: k1, k2 .  The value under a matched key is
+   decoded with the field's type: pointers are allocated, slices decoded element-wise (path
+   segment [i]), maps entry-wise (path segment [key]).  A struct with a custom Unmarshal method
+   (all built-in ones call conf.Unmarshal(cfg) strictly first) accepts the same keys; only the
+   way the path is printed restarts there, which the harness undoes by concatenating the
+   "error decoding '<name>'" frames.
+
+     TLeaf        scalar kinds, text-unmarshaled types, interface values, foreign sub-trees:
+                  consumes its value whole, no keys below it are checked
+     TPtr t       pointer (allocated when the key is written)
+     TSlice t     slice / array
+     TMap t       map with string-like keys
+     TStruct rem fs   struct; rem = it has a `,remain` field; a field is (key, squash?, type)   *)
+Inductive tdesc : Type :=
+| TLeaf
+| TPtr (t : tdesc)
+| TSlice (t : tdesc)
+| TMap (t : tdesc)
+| TStruct (rem : bool) (fs : list (string * bool * tdesc)).
+
+(* configuration values as the YAML provider yields them *)
+Inductive cv : Type :=
+| CNull
+| CScalar (s : string)
+| CList (l : list cv)
+| CMap (kvs : list (string * cv)).
+
+(* the field list of one struct level after squash flattening (fields of `,squash` members are
+   spliced in, recursively); [] for anything that is not a struct *)
+Fixpoint flat_of (t : tdesc) : list (string * tdesc) :=
+  match t with
+  | TStruct _ fs =>
+      (fix go (fs : list (string * bool * tdesc)) : list (string * tdesc) :=
+         match fs with
+         | [] => []
+         | (k, sq, t') :: r => (if sq then flat_of t' else [(k, t')]) ++ go r
+         end) fs
+  | _ => []
+  end.
+
+(* the level has a `,remain` field (its own or a squashed member's): every key is accepted *)
+Fixpoint remain_of (t : tdesc) : bool :=
+  match t with
+  | TStruct rem fs =>
+      (fix go (fs : list (string * bool * tdesc)) : bool :=
+         match fs with
+         | [] => rem
+         | (_, sq, t') :: r => (if sq then remain_of t' else false) || go r
+         end) fs
+  | _ => false
+  end.
+
+Fixpoint lookup {A} (k : string) (l : list (string * A)) : option A :=
+  match l with
+  | [] => None
+  | (k', a) :: r => if String.eqb k k' then Some a else lookup k r
+  end.
+
+Fixpoint strip (t : tdesc) : tdesc := match t with TPtr t' => strip t' | _ => t end.
+
+(* what one written key of a struct level contributes *)
+Definition key_unused (rm : bool) (k : string) (sub : option (list (path * string))) : list (path * string) :=
+  match sub with
+  | Some l => pre k l
+  | None => if rm then [] else [([], k)]
+  end.
+
+(* unused t v: every (path of the struct level, key) that ErrorUnused reports when the value [v]
+   is decoded into a target of type [t].  Values that do not fit the type (a scalar where a
+   struct is expected, ...) fail with a type error instead, which is not modelled: [] . *)
+Fixpoint unused (t : tdesc) (v : cv) {struct v} : list (path * string) :=
+  match strip t, v with
+  | TSlice t', CList l =>
+      (fix go (i : nat) (l : list cv) : list (path * string) :=
+         match l with
+         | [] => []
+         | x :: r => pre (itoa i) (unused t' x) ++ go (S i) r
+         end) 0 l
+  | TMap t', CMap kvs =>
+      (fix go (kvs : list (string * cv)) : list (path * string) :=
+         match kvs with
+         | [] => []
+         | (k, x) :: r => pre k (unused t' x) ++ go r
+         end) kvs
+  | TStruct rem fs, CMap kvs =>
+      (fix go (kvs : list (string * cv)) : list (path * string) :=
+         match kvs with
+         | [] => []
+         | (k, x) :: r =>
+             key_unused (remain_of (TStruct rem fs)) k
+               (option_map (fun t' => unused t' x) (lookup k (flat_of (TStruct rem fs)))) ++ go r
+         end) kvs
+  | _, _ => []
+  end.
+
+(* decodeConfig succeeds as far as ErrorUnused is concerned *)
+Definition decode_strict_ok (t : tdesc) (v : cv) : bool :=
+  match unused t v with [] => true | _ => false end.
+
+(* side condition checked on every dumped descriptor: within one flattened struct level no key
+   is offered twice (otherwise which field receives the value depends on declaration order) *)
+Fixpoint nodup_str (l : list string) : bool :=
+  match l with
+  | [] => true
+  | x :: r => negb (str_mem x r) && nodup_str r
+  end.
+
+Fixpoint squash_keys_disjoint (t : tdesc) : bool :=
+  match t with
+  | TLeaf => true
+  | TPtr t' | TSlice t' | TMap t' => squash_keys_disjoint t'
+  | TStruct rem fs =>
+      nodup_str (map fst (flat_of (TStruct rem fs))) &&
+      (fix go (fs : list (string * bool * tdesc)) : bool :=
+         match fs with
+         | [] => true
+         | (_, _, t') :: r => squash_keys_disjoint t' && go r
+         end) fs
+  end.
+
+(* number of struct levels (= insertion points for an unknown key) of a descriptor *)
+Fixpoint struct_levels (t : tdesc) : nat :=
+  match t with
+  | TLeaf => 0
+  | TPtr t' | TSlice t' | TMap t' => struct_levels t'
+  | TStruct _ fs =>
+      1 + (fix go (fs : list (string * bool * tdesc)) : nat :=
+             match fs with
+             | [] => 0
+             | (_, sq, t') :: r => (if sq then struct_levels t' - 1 else struct_levels t') + go r
+             end) fs
+  end.
+
+(* =====================================================================================
+   Part 4 — faithfulness: factory defaults overlaid by exactly the written keys.
+
+   configunmarshaler.Configs.Unmarshal creates factory.CreateDefaultConfig() and decodes the
+   component's section INTO it; mapstructure only touches the fields whose key is present in the
+   input map (a null value leaves the field alone) and recurses into nested structs the same way.
+   [tv] is the typed configuration restricted to what the property observes: plain leaves (bool,
+   integers, floats, strings, durations, rendered canonically) under struct nesting, flattened
+   through `,squash`, through non-nil pointers.  Slices, maps, text-unmarshaled and foreign values
+   are outside this part (replaced whole by mapstructure; covered by the harness oracle only). *)
+Inductive tv : Type :=
+| VSc (s : string)
+| VRec (fs : list (string * tv)).
+
+Definition cv_lookup (k : string) (m : option cv) : option cv :=
+  match m with
+  | Some (CMap kvs) => lookup k kvs
+  | _ => None
+  end.
+
+Fixpoint overlay (d : tv) (m : option cv) {struct d} : tv :=
+  match d with
+  | VSc s0 => match m with Some (CScalar s) => VSc s | _ => VSc s0 end
+  | VRec fs =>
+      VRec ((fix go (fs : list (string * tv)) : list (string * tv) :=
+               match fs with
+               | [] => []
+               | (k, dv) :: r => (k, overlay dv (cv_lookup k m)) :: go r
+               end) fs)
+  end.
+
+Fixpoint tv_get (p : path) (v : tv) : option tv :=
+  match p with
+  | [] => Some v
+  | k :: r => match v with VRec fs => opt_bind (lookup k fs) (tv_get r) | VSc _ => None end
+  end.
+
+Fixpoint cv_get (p : path) (m : option cv) : option cv :=
+  match p with
+  | [] => m
+  | k :: r => cv_get r (cv_lookup k m)
+  end.
+
+(* The component-specific Unmarshal methods that do more than the strict decode (read from the
+   code; see Instances.known_custom), as explicit special rules applied after the overlay:
+     otlpreceiver.Config     a protocol section that is not written becomes nil
+     queuebatch.Config       writing the deprecated `blocking` sets `block_on_overflow` too, but only
+                             when `block_on_overflow` itself is not written (fix a5b2af88a; before
+                             it the alias also overwrote a written sibling, see Witness.v)
+   (otlpexporter.Config's `batcher` switch and the URL-path sanitising of the OTLP receiver are
+   kept out of the generated configurations and are not modelled.) *)
+Inductive crule : Type :=
+| RDropUnset (at_ : path) (k : string)
+| RCopyIfSet (at_ : path) (from to : string).
+
+Fixpoint tv_update (p : path) (f : list (string * tv) -> list (string * tv)) (v : tv) : tv :=
+  match v with
+  | VSc s => VSc s
+  | VRec fs =>
+      match p with
+      | [] => VRec (f fs)
+      | k :: r => VRec (map (fun e => if String.eqb (fst e) k then (fst e, tv_update r f (snd e)) else e) fs)
+      end
+  end.
+
+Definition is_set (p : path) (k : string) (m : option cv) : bool :=
+  match cv_lookup k (cv_get p m) with Some _ => true | None => false end.
+
+Definition apply_rule (m : option cv) (v : tv) (r : crule) : tv :=
+  match r with
+  | RDropUnset p k =>
+      if is_set p k m then v
+      else tv_update p (filter (fun e => negb (String.eqb (fst e) k))) v
+  | RCopyIfSet p from to =>
+      if is_set p from m && negb (is_set p to m) then
+        tv_update p (fun fs => match lookup from fs with
+                               | Some x => map (fun e => if String.eqb (fst e) to then (to, x) else e) fs
+                               | None => fs
+                               end) v
+      else v
+  end.
+
+Definition rules_of (name : string) : list crule :=
+  if String.eqb name "receivers/otlp" then [RDropUnset ["protocols"%string] "grpc"; RDropUnset ["protocols"%string] "http"]
+  else if String.eqb name "exporters/otlp" || String.eqb name "exporters/otlphttp"
+       then [RCopyIfSet ["sending_queue"%string] "blocking" "block_on_overflow"]
+  else [].
+
+Definition decode_model (name : string) (d : tv) (m : cv) : tv :=
+  fold_left (apply_rule (Some m)) (rules_of name) (overlay d (Some m)).
